@@ -351,6 +351,7 @@ where
 ///
 /// Implements a [`quic::RecvStream`] backed by a [`quinn::RecvStream`].
 pub struct RecvStream {
+    id: quinn::StreamId,
     stream: Option<quinn::RecvStream>,
     read_chunk_fut: ReadChunkFuture,
     is_0rtt: bool,
@@ -369,6 +370,7 @@ impl RecvStream {
     fn new(stream: quinn::RecvStream) -> Self {
         let is_0rtt = stream.is_0rtt();
         Self {
+            id: stream.id(),
             stream: Some(stream),
             // Should only allocate once the first time it's used
             read_chunk_fut: ReusableBoxFuture::new(async { unreachable!() }),
@@ -415,7 +417,8 @@ impl quic::RecvStream for RecvStream {
 
     #[cfg_attr(feature = "tracing", instrument(skip_all, level = "trace"))]
     fn recv_id(&self) -> StreamId {
-        let num: u64 = self.stream.as_ref().unwrap().id().into();
+        // the stream itself is inside `read_chunk_fut` while a read is pending
+        let num: u64 = self.id.into();
 
         num.try_into().expect("invalid stream id")
     }
